@@ -252,11 +252,11 @@ func opsPerG(G int) int {
 	case G <= 2:
 		return 12
 	case G <= 8:
-		return 6
+		return 4
 	case G <= 32:
-		return 3
+		return 2
 	}
-	return 2
+	return 1
 }
 
 // ---- one operation -----------------------------------------------------------
@@ -332,6 +332,7 @@ func execOp(w *world, op *opInst, pt []byte, rng *rand.Rand) {
 	switch op.t.kind {
 	case "enc", "derive":
 		var buf bytes.Buffer
+		buf.Grow(len(pt) + (len(pt)/65536+1)*16 + 1024)
 		dst := &mon.PerturbWriter{W: cw{&buf, &op.io}, Rng: rng}
 		op.call = tick.Add(1)
 		wc, err := age.Encrypt(dst, w.recipients(op.t)...)
@@ -366,13 +367,13 @@ func execOp(w *world, op *opInst, pt []byte, rng *rand.Rand) {
 			ids[i] = w.ids[n]
 		}
 		src := &mon.PerturbReader{R: cr{bytes.NewReader(op.file), &op.io}, Rng: rng}
-		var out []byte
+		out := make([]byte, 0, len(pt)+16)
+		buf := make([]byte, 16<<10)
 		op.call = tick.Add(1)
 		r, err := age.Decrypt(src, ids...)
 		op.head = tick.Load()
 		var rerr error
 		if err == nil {
-			buf := make([]byte, 16<<10)
 			for {
 				n, e := r.Read(buf)
 				out = append(out, buf[:n]...)
@@ -637,8 +638,10 @@ func runChild(jobPath string) {
 		// repetitions start at different GOMAXPROCS so that concurrently
 		// running repetitions do not all sit in their 2-processor phase
 		P := jb.Ps[(pi+jb.Rep)%len(jb.Ps)]
-		for _, G := range jb.Gs {
-			for _, size := range jb.Sizes {
+		// payload size is the slow dimension so that the heap is not grown
+		// and given back to the system between every pair of rounds
+		for _, size := range jb.Sizes {
+			for _, G := range jb.Gs {
 				for _, mix := range jb.Mixes {
 					ro := runRound(w, &jb, no, G, P, size, mix)
 					enc.Encode(ro)
